@@ -144,7 +144,7 @@ class Corruptor:
 					picked = ctx.rng.sample(picked, 8)
 			elif 'width-sweep' == operator:
 				# per site 2 signs x the width texts of the model; the neighbours of the supported widths and a leading-zero spelling always,
-				# the other widths sampled (quick) or each once per document (thorough), at a site and with a sign chosen at random
+				# the other widths sampled (4 per document in quick, 40 in thorough: every width is met many times over the documents of a run), at a site and with a sign chosen at random
 				classes = None
 				widths = self.sweep_widths
 				per_site = 2 * len(widths)
@@ -154,7 +154,7 @@ class Corruptor:
 					wanted = [widths.index(text) for text in ('9', '12', '15', '17', '23', '24', '33', '39', '65', '71', '72')]
 					wanted.append(widths.index(ctx.rng.choice(['08', '016', '032', '0064', '008'])))
 					others = [index for index in range(len(widths)) if index not in wanted]
-					wanted += others if thorough else ctx.rng.sample(others, 4)
+					wanted += ctx.rng.sample(others, 40 if thorough else 4)  # (all of them per document made the thorough tier run for hours)
 					for index in wanted:
 						picked.append((ctx.rng.randrange(site_count) * 2 + ctx.rng.randrange(2)) * len(widths) + index)
 					picked = sorted(set(picked))
